@@ -164,6 +164,9 @@ func coreSuite() []modelSpec {
 	add("composition", "Seq[PeekFor[Alt], Query[Seq[Dot, Char]], Alt ending a sequence]", func(m *model) *Obj {
 		return m.seq(m.peekFor(m.alt(m.char("a"), m.char("c"))), m.query(m.seq(m.dot(), m.char("a"))), m.alt(m.opaqueChild(true, false), m.opaqueChild(true, false)))
 	})
+	add("composition", "a sequence of empty literals behind a choice: Seq[e, Alt[e, e], Seq[(), ()]]", func(m *model) *Obj {
+		return m.seq(m.opaqueChild(true, false), m.alt(m.opaqueChild(true, false), m.opaqueChild(true, false)), m.seq(m.nilNode(), m.nilNode()))
+	})
 	add("composition", "children ending in a label", func(m *model) *Obj {
 		return m.seq(m.opaqueChild(true, true), m.alt(m.opaqueChild(true, true), m.opaqueChild(true, true)), m.query(m.opaqueChild(true, true)))
 	})
